@@ -697,9 +697,26 @@ func evalBlockExact(b []byte, dohash bool) (res caseResult) {
 
 // blockSummary decodes a block and condenses everything the API reports.
 func blockSummary(in []byte, dohash bool) (sum string, pan string) {
+	return blockSummaryVia(func(d []byte) (*btc.Block, error) { return btc.NewBlock(d) }, in, dohash, false)
+}
+
+// blockSummaryVia: the same through any block entry point; with accessors=true the header
+// accessors are called between the entry point and BuildTxListExt and must give the header
+// fields (every byte string the entry point accepts has a header to read).
+func blockSummaryVia(entry func([]byte) (*btc.Block, error), in []byte, dohash bool, accessors bool) (sum string, pan string) {
+	where := "entry point"
 	pan = try("block", func() {
-		bl, err := btc.NewBlock(in)
+		bl, err := entry(in)
+		if err == nil && accessors {
+			where = "header accessors"
+			le := func(b []byte) uint32 { return uint32(b[0]) | uint32(b[1])<<8 | uint32(b[2])<<16 | uint32(b[3])<<24 }
+			if bl.Version() != le(in[0:4]) || !bytes.Equal(bl.ParentHash(), in[4:36]) || !bytes.Equal(bl.MerkleRoot(), in[36:68]) || bl.BlockTime() != le(in[68:72]) || bl.Bits() != le(in[72:76]) {
+				sum = "accepted, header accessors give other values than the bytes"
+				return
+			}
+		}
 		if err == nil {
+			where = "BuildTxListExt"
 			err = bl.BuildTxListExt(dohash)
 		}
 		if err != nil {
@@ -718,7 +735,47 @@ func blockSummary(in []byte, dohash bool) (sum string, pan string) {
 		}
 		sum = fmt.Sprintf("accepted: %d txs, weight %d, content %x", len(bl.Txs), bl.BlockWeight, reftx.DSha(ser))
 	})
+	if pan != "" {
+		pan = "in " + where + ": " + strings.TrimPrefix(pan, "block:")
+	}
 	return
+}
+
+// a valid two-transaction block, to fill a Block before UpdateContent is called on it again
+var filledBlock = func() []byte {
+	b := make([]byte, 80, 200)
+	b = append(b, 2)
+	b = append(b, routeCb.Serialize(true)...)
+	t := &reftx.Tx{Version: 2, In: []reftx.In{{Vout: 1, Script: []byte{0x51}, Sequence: 7}}, Out: []reftx.Out{{Value: 5, Script: []byte{0x52}}}}
+	return append(b, t.Serialize(true)...)
+}()
+
+// blockEntries: every exported way to hand block bytes to the library.
+var blockEntries = []struct {
+	name string
+	f    func([]byte) (*btc.Block, error)
+}{
+	{"NewBlockX", func(d []byte) (*btc.Block, error) {
+		h := d
+		if len(h) > 80 {
+			h = h[:80]
+		}
+		return btc.NewBlockX(d, btc.NewSha2Hash(h))
+	}},
+	{"UpdateContent-on-new-Block", func(d []byte) (*btc.Block, error) {
+		bl := new(btc.Block)
+		return bl, bl.UpdateContent(d)
+	}},
+	{"UpdateContent-on-used-Block", func(d []byte) (*btc.Block, error) {
+		bl, err := btc.NewBlock(append([]byte{}, filledBlock...))
+		if err == nil {
+			err = bl.BuildTxListExt(true)
+		}
+		if err != nil {
+			panic("harness: the filler block is refused: " + err.Error())
+		}
+		return bl, bl.UpdateContent(d)
+	}},
 }
 
 func evalBlock(b []byte, cont []byte, dohash bool) (res caseResult) {
@@ -730,6 +787,22 @@ func evalBlock(b []byte, cont []byte, dohash bool) (res caseResult) {
 	copy(exact, b)
 	stage('b')
 	sumA, _ := blockSummary(exact, dohash)
+	// the other entry points: refused with an error, or the same result as through NewBlock
+	// (which is compared with the reference); never a panic in the entry point, the header
+	// accessors or BuildTxListExt
+	for _, e := range blockEntries {
+		stage('b')
+		sumE, pan := blockSummaryVia(e.f, exact, dohash, true)
+		if strings.Contains(pan, "harness:") {
+			fmt.Fprintln(os.Stderr, "HARNESS:", pan)
+			os.Exit(3)
+		}
+		if pan != "" {
+			res.Viol = append(res.Viol, viol{"block-entry/" + e.name + "/panic", fmt.Sprintf("%d-byte input handed to %s, then header accessors and BuildTxListExt(%v): panic %s (through NewBlock: %s)", len(b), e.name, dohash, pan, sumA)})
+		} else if sumE != sumA && !(e.name == "UpdateContent-on-used-Block" && len(b) == 80 && sumE == "refused") {
+			res.Viol = append(res.Viol, viol{"block-entry/" + e.name + "/differs-from-NewBlock", fmt.Sprintf("%d-byte input through %s + BuildTxListExt(%v): %s; through NewBlock: %s", len(b), e.name, dohash, sumE, sumA)})
+		}
+	}
 	tl, tn := tails(cont)
 	for ti, t := range tl {
 		stage('b')
